@@ -19,7 +19,9 @@ translator's older subset; the library models are in coq/Model/RecSrc.v):
      int, n an int or None: a pair), the list fields LISTS of ints (what _to_int_list returns), wkst a weekday
      object (WkObj) or an int (WkInt).  Hence isinstance(byweekday, list), isinstance(wd, weekday),
      isinstance(val, list) are True and the other arm of those tests is not translated (it cannot run).
- T4  The module-level tables, pinned by their exact source text (file_has; a change is Unsupported):
+ T4  The names DAILY .. YEARLY, MO .. SU, weekday (and datetime, for the constructor) are what the module
+     imports from dateutil.rrule / datetime and nothing else binds them (checked on the module's AST).
+     The module-level tables, pinned by their exact source text (file_has; a change is Unsupported):
      _FREQ_TO_STRING[f] = the name of f (tok_freq), `f not in _FREQ_TO_STRING` is False for the four constants;
      _WEEKDAY_INT_TO_STRING.get(w) = the code of weekday w for 0 <= w <= 6, else None (wd_text);
      _WEEKDAY_INT_TO_STRING[w] / `w in _WEEKDAY_INT_TO_STRING` likewise.
